@@ -7,6 +7,7 @@ package main
 import (
 	"fmt"
 	"go/ast"
+	"go/constant"
 	"go/token"
 	"go/types"
 	"regexp"
@@ -820,6 +821,7 @@ func ruleHndRangeInt(c *Ctx, r *R) {
 		return
 	}
 	nIter, counting := 0, false
+	var countingCall *ast.CallExpr
 	isIter := func(t types.Type) bool {
 		sig, ok := t.Underlying().(*types.Signature)
 		return ok && sig.Params().Len() == 0 && sig.Results().Len() == 3
@@ -841,6 +843,7 @@ func ruleHndRangeInt(c *Ctx, r *R) {
 		for _, a := range call.Args {
 			if isNamed(c.TypeOf(a), "Value") {
 				counting = true
+				countingCall = call
 			}
 		}
 		return true
@@ -851,6 +854,61 @@ func ruleHndRangeInt(c *Ctx, r *R) {
 	}
 	r.check(counting, "range over an integer", c.Pos(sc.Clause), "an integer operand gets a counting iterator",
 		"the RANGE handler treats every operand without an object as a nil container: `for i := range 3 { .. }` (and `for range n`) loads, runs and silently executes the body zero times")
+	// ... for every integer tag, the untyped constant's included (for i := range 6), and not for floats
+	if countingCall != nil {
+		var conds []ast.Expr
+		var child ast.Node = countingCall
+		for p := c.Parent(countingCall); p != nil && p != ast.Node(sc.Clause); child, p = p, c.Parent(p) {
+			switch x := p.(type) {
+			case *ast.IfStmt:
+				if x.Body == child {
+					conds = append(conds, x.Cond)
+				}
+			case *ast.CaseClause:
+				if len(x.List) == 1 {
+					if sw, ok := c.Parent(c.Parent(x)).(*ast.SwitchStmt); ok && sw.Tag == nil {
+						conds = append(conds, x.List[0])
+					}
+				}
+			}
+		}
+		tags := c.typeTags()
+		ut, okUT := c.constByName("untypedInt")
+		if okUT {
+			tags["untypedInt"] = ut
+		}
+		old := evalEnv
+		defer func() { evalEnv = old }()
+		for _, tag := range []string{"untypedInt", "TypeUint8", "TypeInt8", "TypeUint32", "TypeInt32", "TypeFloat64"} {
+			tv, has := tags[tag]
+			if !has {
+				continue
+			}
+			evalEnv = map[types.Object]constant.Value{tagOfOperand: constant.MakeInt64(tv)}
+			taken, decided := true, false
+			for _, cd := range conds {
+				for _, cj := range conjuncts(cd) {
+					if !strings.Contains(nosp(c.Src(cj)), ".t") {
+						continue
+					}
+					v, ok := c.evalWith(cj, nil, nil)
+					if !ok || v.Kind() != constant.Bool {
+						continue
+					}
+					decided = true
+					if !constant.BoolVal(v) {
+						taken = false
+					}
+				}
+			}
+			if !decided {
+				continue
+			}
+			want := tag != "TypeFloat64"
+			r.check(taken == want, "range over an integer "+tag, c.Pos(countingCall), "the counting iterator is chosen exactly for the integer tags",
+				fmt.Sprintf("the RANGE handler's test for an integer operand is %v for the tag %s: `for i := range 6` (an untyped constant) or a typed integer gets the nil iterator and the body never runs, or a float is counted", taken, tag))
+		}
+	}
 }
 
 // PAR-RETURNLINE: there is no semicolon insertion in this parser, but a `return` followed
